@@ -107,3 +107,51 @@ func LongRefusalScript(n, depth int) []Op {
 	}
 	return ops
 }
+
+// LeaseScenarios: directed, deterministic lease situations (both backends):
+// settle calls at the exact expiry instant and one nanosecond around it, batch
+// settles that name an expired lease before a live one (and the reverse), a
+// stale single / batch settle after the message was leased again, the same
+// lease twice in a batch. The snapshot-diff monitor judges every reply and
+// every effect.
+func LeaseScenarios() []Directed {
+	var out []Directed
+	lb := func(k Kind, refs ...LeaseRef) Op { return Op{Kind: k, Leases: refs, Reason: "directed", Dur: 0} }
+	for _, k := range []Kind{KAck, KNack, KExtend, KDead} {
+		for _, off := range []time.Duration{-time.Nanosecond, 0, time.Nanosecond} {
+			op := Op{Kind: k, Leases: []LeaseRef{lease("a", 1)}, Reason: "directed"}
+			if k == KExtend {
+				op.Dur = time.Second
+			}
+			out = append(out, Directed{Name: fmt.Sprintf("%s-at-expiry%+dns", k, int64(off)), Script: []Op{
+				enq("a"), enq("b"), deq(1, time.Second), adv(time.Second + off), op, {Kind: KList, List: &queue.MessageListRequest{}},
+				adv(10 * time.Millisecond), deq(5, time.Minute), {Kind: KList, List: &queue.MessageListRequest{}}}})
+		}
+	}
+	for _, k := range []Kind{KAckBatch, KNackBatch, KDeadBatch} {
+		// a leased with 1s, b leased with 1m; after 2s a's lease is over, b's is live
+		prep := []Op{enq("a"), adv(time.Millisecond), enq("b"), adv(time.Millisecond), enq("c"), deq(1, time.Second), deq(1, time.Minute), adv(2 * time.Second)}
+		tail := []Op{{Kind: KList, List: &queue.MessageListRequest{}}, adv(10 * time.Millisecond), deq(5, time.Minute), {Kind: KList, List: &queue.MessageListRequest{}}}
+		for name, refs := range map[string][]LeaseRef{
+			"expired-then-live":    {lease("a", 1), lease("b", 1)},
+			"live-then-expired":    {lease("b", 1), lease("a", 1)},
+			"expired-twice":        {lease("a", 1), lease("a", 1)},
+			"live-twice":           {lease("b", 1), lease("b", 1)},
+			"expired-live-expired": {lease("a", 1), lease("b", 1), lease("a", 1)},
+		} {
+			sc := append(append(append([]Op{}, prep...), lb(k, refs...)), tail...)
+			out = append(out, Directed{Name: fmt.Sprintf("%s-%s", k, name), Script: sc})
+		}
+		// stale settle after the message was leased again: L1 expired, L2 live
+		for _, single := range []bool{false, true} {
+			op := lb(k, lease("a", 1))
+			if single {
+				op = Op{Kind: map[Kind]Kind{KAckBatch: KAck, KNackBatch: KNack, KDeadBatch: KDead}[k], Leases: []LeaseRef{lease("a", 1)}, Reason: "directed"}
+			}
+			out = append(out, Directed{Name: fmt.Sprintf("%s-stale-after-release-single=%v", k, single), Script: []Op{
+				enq("a"), deq(1, time.Second), adv(2 * time.Second), deq(1, time.Minute), op, {Kind: KList, List: &queue.MessageListRequest{}},
+				adv(10 * time.Millisecond), deq(5, time.Minute), lb(KAckBatch, lease("a", 2)), {Kind: KList, List: &queue.MessageListRequest{}}}})
+		}
+	}
+	return out
+}
